@@ -207,7 +207,7 @@ CLAIMED = {
               "is missing, for any dictionary with unique keys that is closed before)."),
         design_ref='§8 C08'),
     'C11': dict(
-        technique='Lean 4 proof (structural/fuel induction over expression trees) + model↔code correspondence + Lean spec monitor',
+        technique='Lean 4 proof (structural/fuel induction over expression trees; token/gap invariants through the regex passes of normalize) + model↔code correspondence + Lean spec monitor',
         text=("Proved for all expressions and all sense assignments in Lean: the PEG parser model returns, on the canonical "
               "spelling of any stratified MCNP expression, the left-associated tree of MCNP's precedence rules "
               "(parse_canonical); that tree evaluates to MCNP's reading (parsed_tree_meaning); GeomExpression.inverse "
@@ -215,8 +215,12 @@ CLAIMED = {
               "cells to any depth (complement_elimination). The char-level model of normalize()+grammar+GeomSemantics and "
               "the pot_complement model are tied to /repo on every run by exact tree comparison on generated, exhaustive-"
               "small and malformed texts; a Boolean monitor evaluates the converter's actual trees against MCNP's reading "
-              "on all 2^n assignments. Not proved: normalize() maps every legal layout to the canonical spelling "
-              "(correspondence only)."),
+              "on all 2^n assignments. Spacing: normalize() — its nine regex passes modelled character by character — is "
+              "proved to map every legal layout of an expression (any run of the six ASCII blanks, possibly empty, after "
+              "every token and in front; at least one blank between two literals or between #n and a literal that "
+              "follow each other) to the canonical spelling (normalize_any_layout: each pass shown to rewrite only the "
+              "gaps, as a function of the neighbouring tokens; subCompl shown to merge '#' with what follows); hence "
+              "layout_meaning: any legal spacing is parsed to a tree with MCNP's Boolean function."),
         design_ref='§8 C11'),
     'C13': dict(
         technique='Lean 4 proof (fold invariant of de-duplication, fuel induction for inlining) + model↔code correspondence + Lean point monitor under several option sets',
